@@ -116,6 +116,9 @@ def mkArt (g : Grammar) : Art :=
     { g := g, terminals := S.terminals, lexProds := g.lex, dfa := genLexer g.lex,
       ref := Thunk.mk fun _ => refDfa g.lex }
   else
+    match Gocc.semCheck g with
+    | .error _ => { g := g, lr := some (.error "refused"), dfa := .error "refused" }     -- `consistent` / `UndefinedRegDef`: exit status 1
+    | .ok () =>
     match newSymbols (augment g.syn) with
     | .error e => { g := g, lr := some (.error e), dfa := .error e }
     | .ok S0 =>
@@ -158,7 +161,7 @@ def showAct : Option Act → String
 def showLRTab (a : Art) : String :=
   match a.lr with
   | none => "nosyntax"
-  | some (.error _) => "panic"
+  | some (.error e) => if e == "refused" then "refused" else "panic"
   | some (.ok r) =>
     let T := r.tables
     let rows := (List.range T.nStates).map fun s =>
@@ -442,6 +445,7 @@ def opSemCheck (a : Art) : String :=
   | .error (.emptyAlt h) => s!"emptyalt {h}"
   | .error (.undefinedProd x) => s!"undefprod {x}"
   | .error (.undefinedRegDef r u) => s!"undefregdef {r} {u}"
+  | .error (.reserved n) => s!"reserved {n}"
 
 /-- `semspec id`: the property's clauses evaluated directly (Spec/SemWF.lean) -/
 def opSemSpec (a : Art) : String := if Gocc.semWFb a.g then "wf" else "ill"
